@@ -322,6 +322,8 @@ def run(ctx):
     ctx.do(rule_integers_exact)
     ctx.do(rule_index_steps_cover_the_grammar)
     ctx.do(rule_definite_init)
+    ctx.do(rule_groups_become_grouping_nodes)
+    ctx.do(rule_list_constant_keeps_every_member)
     ctx.do(rule_escape_order)
     ctx.do(rule_step_quoting)
     ctx.do(rule_token_domain)
@@ -1096,7 +1098,48 @@ def rule_path_step_kinds(ctx):
                           function=fi.qualname, expected="explicit type test (IntegerConstant -> .value, TerminalNode -> text)",
                           found=short(b_))
     if n < 1:
+        # the reads moved into helpers of the visitor: follow them (methods of the visitor class called from visitObjectPath)
+        helpers = [vis.methods[c_.func.attr] for c_ in body_walk(fi.node) if isinstance(c_, ast.Call) and isinstance(c_.func, ast.Attribute)
+                   and isinstance(c_.func.value, ast.Name) and c_.func.value.id == "self" and c_.func.attr in vis.methods
+                   and c_.func.attr not in ("instantiate", "visitChildren")]
+        for h in helpers:
+            for x in body_walk(h.node):
+                if isinstance(x, ast.Attribute) and x.attr == "property_name" and isinstance(x.value, ast.Name) and isinstance(x.ctx, ast.Load):
+                    n += 1
+                    v = x.value.id
+                    guarded = any(pol and isinstance(t, ast.Call) and call_simple_name(t) == "isinstance" and norm(t.args[0]) == v
+                                  and "BasicObjectPathComponent" in norm(t.args[1]) for t, pol, _ in guard_chain(x))
+                    run.check(guarded or not returns_const, R, key(h.module.relpath, h.qualname, "property_name-read:%d" % n),
+                              "`.property_name` is read from a path step that may be a StringConstant", file=h.module.relpath,
+                              line=x.lineno, function=h.qualname, expected="under isinstance(<step>, BasicObjectPathComponent)", found=short(x))
+    if n < 1:
         raise AnalysisError("visitObjectPath: no read of .property_name found")
+    rule_parse_tree_text_not_escaped_again(ctx, R)
+
+
+def rule_parse_tree_text_not_escaped_again(ctx, R="C10.path-step-kinds"):
+    """What the visitor takes from the parse tree is pattern TEXT: quotes and backslashes in it are escaped already (a
+    StringConstant built with from_parse_tree=True prints its value as it is).  The escaping helper belongs to the printers of
+    values given by a program; applied in the visitor it escapes a second time -- [x:a.'it\\'s'[*] = 1] prints with three
+    backslashes and no longer denotes the same key.  Who-may-call: the visitor module does not call the escaper."""
+    run = ctx.run
+    prog = ctx.prog
+    pvm = prog.module(PV)
+    k_ = 0
+    for fi in sorted((f for f in prog.functions.values() if f.module is pvm), key=lambda f: f.id):
+        for c in body_walk(fi.node):
+            if isinstance(c, ast.Call) and call_simple_name(c) == "escape_quotes_and_backslashes":
+                k_ += 1
+                run.violation(R, key(pvm.relpath, fi.qualname, "parse-tree-text-escaped-again#%d" % k_),
+                              "text taken from the parse tree is escaped again: it is escaped pattern text already, so a quote or "
+                              "backslash in it is doubled and the printed pattern denotes another string / key",
+                              file=pvm.relpath, line=c.lineno, function=fi.qualname,
+                              expected="str(<parse-tree constant>) (prints the text as it was written)", found=short(c, 80))
+    # the escaper still exists where it belongs (otherwise this who-may-call rule watches a name nobody uses)
+    if not any(isinstance(c, ast.Call) and call_simple_name(c) == "escape_quotes_and_backslashes"
+               for f in prog.functions.values() if f.module.name == PAT for c in body_walk(f.node)):
+        raise AnalysisError("escape_quotes_and_backslashes is not used in stix2.patterns any more: anchors lost")
+    run.ok(R, key(pvm.relpath, "<module>", "visitor-does-not-escape"))
 
 
 def rule_path_text_tokenised(ctx):
@@ -1233,3 +1276,73 @@ def rule_no_order_on_printed_text(ctx):
                               file=fi.module.relpath, line=c.lineno, function=fi.qualname,
                               expected="comparison of the parsed instants (or none: the grammar does not order them)", found=short(c))
     run.ok(R, key("stix2/patterns.py", "<module>", "no-order-on-printed-text"), "%d functions examined" % n)
+
+
+def rule_groups_become_grouping_nodes(ctx, R="C10.operator-table"):
+    """Parentheses in the text are kept as a grouping node of the model, always: whether a group is 'redundant' cannot be
+    decided where it is parsed (a qualifier that FOLLOWS the group binds tighter than every observation operator:
+    ([a] AND [b]) WITHIN 5 SECONDS without the group is [a] AND ([b] WITHIN 5 SECONDS)).  In every visitor method that tests
+    for an opening parenthesis, every value returned under that test is a ParentheticalExpression."""
+    run = ctx.run
+    prog = ctx.prog
+    vis = prog.cls(PV + "::STIXPatternVisitorForSTIX2")
+    n = 0
+    for name, fi in sorted(vis.methods.items()):
+        for iff in [x for x in body_walk(fi.node) if isinstance(x, ast.If) and "LPAREN" in norm(x.test)]:
+            n += 1
+            rets = [r for st in iff.body for r in ast.walk(st) if isinstance(r, ast.Return)]
+            bad = [r for r in rets if not (isinstance(r.value, ast.Call) and call_simple_name(r.value) == "instantiate" and r.value.args
+                                           and isinstance(r.value.args[0], ast.Constant) and r.value.args[0].value == "ParentheticalExpression")]
+            run.check(bool(rets) and not bad, R, key(fi.module.relpath, fi.qualname, "group-kept-as-node"),
+                      "a parenthesised group of the text is not always turned into the model's grouping node: the printed pattern "
+                      "loses the parentheses, and whatever follows the group (a qualifier, an operator of another precedence) "
+                      "then applies to its last operand only", file=fi.module.relpath, line=(bad[0].lineno if bad else iff.lineno),
+                      function=fi.qualname, expected='return self.instantiate("ParentheticalExpression", <inner>) on every path under the LPAREN test',
+                      found=[short(r, 70) for r in bad])
+    # the comparison-expression group has a grammar rule of its own
+    fi = vis.methods.get("visitPropTestParen")
+    if fi is None:
+        raise AnalysisError("anchor missing: visitPropTestParen")
+    rets = returns_of(fi)
+    bad = [r for r in rets if not (isinstance(r.value, ast.Call) and call_simple_name(r.value) == "instantiate" and r.value.args
+                                   and isinstance(r.value.args[0], ast.Constant) and r.value.args[0].value == "ParentheticalExpression")]
+    run.check(bool(rets) and not bad, R, key(fi.module.relpath, fi.qualname, "group-kept-as-node"),
+              "a parenthesised comparison group is not always turned into the model's grouping node", file=fi.module.relpath,
+              line=fi.node.lineno, function=fi.qualname, expected='return self.instantiate("ParentheticalExpression", <inner>)',
+              found=[short(r, 70) for r in bad])
+    if n < 1:
+        raise AnalysisError("no visitor method tests for an opening parenthesis: anchors lost")
+
+
+def rule_list_constant_keeps_every_member(ctx, R="C10.operator-table"):
+    """The members of a set literal are kept as written, all of them, in order: ListConstant builds its value from EVERY element
+    of its argument.  Dropping 'duplicates' compares Python values across constant kinds (1 == True, 2 == 2.0, 'ab' == the
+    text of h'ab'), so IN (1, true) prints as IN (1) -- a different pattern."""
+    run = ctx.run
+    prog = ctx.prog
+    cls = prog.cls(PAT + "::ListConstant")
+    init = cls.methods.get("__init__")
+    if init is None or len(init.params) < 2:
+        raise AnalysisError("anchor missing: ListConstant.__init__(self, values)")
+    pv = init.params[1]
+    ok = False
+    why = "no construction of self.value from the argument found"
+    for a in body_walk(init.node):
+        if isinstance(a, ast.Assign) and norm(a.targets[0]) == "self.value" and isinstance(a.value, ast.ListComp):
+            g_ = a.value.generators
+            if len(g_) == 1 and norm(g_[0].iter) == pv:
+                ok = not g_[0].ifs
+                why = "the comprehension has a condition" if g_[0].ifs else ""
+    for lp in body_walk(init.node):
+        if isinstance(lp, ast.For) and norm(lp.iter) == pv:
+            apps = [c for c in ast.walk(lp) if isinstance(c, ast.Call) and isinstance(c.func, ast.Attribute) and c.func.attr == "append"
+                    and norm(c.func.value) == "self.value"]
+            if apps:
+                cond = [c for c in apps if guard_chain(c, stop=lp)]
+                skips = [x for x in ast.walk(lp) if isinstance(x, (ast.Continue, ast.Break))]
+                ok = not cond and not skips
+                why = "the member is appended under a condition" if (cond or skips) else ""
+    run.check(ok, R, key(cls.module.relpath, "ListConstant.__init__", "every-member-kept"),
+              "ListConstant does not keep every member it is given (%s): a set literal prints with fewer members than it was "
+              "written / built with" % why, file=cls.module.relpath, line=init.node.lineno, function="ListConstant.__init__",
+              expected="self.value = [<constant of x> for x in values]", found=short(init.node, 200))
